@@ -150,9 +150,9 @@ func TestVerifRaftx(t *testing.T) {
 	run := verifkit.Env()
 	res := verifkit.NewResult()
 	defer run.Finish(res)
-	part := run.Part
+	part := os.Getenv("VERIF_RAFTX_PART")
 	if part == "" {
-		part = os.Getenv("VERIF_RAFTX_PART")
+		part = run.Part
 	}
 	cfgs := configsFor(part, run.Thorough())
 	res.Rule = "explicit-state BFS with dedup over a cluster of real raft.Peer+LogReader+rsm.StateMachine replicas; events = message deliveries (any order, loss by non-delivery, budgeted duplication), abstract timeouts, proposals, reads, config changes, apply lag, snapshots+compaction, crash/restart (also mid-cycle); evaluation = one transition executed with all invariants checked; distinct_nontrivial = distinct canonical cluster states"
@@ -207,7 +207,7 @@ func TestVerifRaftx(t *testing.T) {
 		st := verifkit.BFS(verifkit.BFSConfig{
 			New:      func() verifkit.Instance { return xinst{newCluster(cfg)} },
 			Describe: desc.describe, MaxDepth: cfg.MaxDepth, MaxStates: run.Pick(1500000, 12000000),
-			Workers: 16, Run: run, Res: sub, KeyOf: keyOfX,
+			Workers: 16, Run: run, Res: sub, KeyOf: keyOfX, Chain: cfg.MaxDev > 0 && part != "c17",
 			OnState: func(inst verifkit.Instance, path []uint32) {
 				if len(path) == 8 {
 					res.Sample(2, verifkit.PathString(path, desc.describe))
